@@ -147,8 +147,15 @@ def execute(ctx, case):
     gcols = list(cols)
     score = np.asarray(case["score"])  # keeps a float32 column float32; the reference compares the exact values in float64
     lab = np.asarray(case["label"])
-    labels = np.where(lab == 1, "y", "n") if case["strlab"] else lab
-    pos_label = "y" if case["strlab"] else 1
+    # how the positive class is spelled in the label column is the caller's business: 1 among 0/1 (the documented default), 0 among 0/1,
+    # a string (also the empty string), True or False in a boolean column (an "is_negative" flag has pos_label=False)
+    lk = (["y", "", "y"] if case["strlab"] else [1, 1, 0, True, False, 2])[(case["_seed"] // 5) % (3 if case["strlab"] else 6)]
+    if isinstance(lk, str):
+        labels, pos_label = np.where(lab == 1, lk, "n").astype(object), lk
+    elif isinstance(lk, bool):
+        labels, pos_label = ((lab == 1) if lk else (lab != 1)), lk
+    else:
+        labels, pos_label = np.where(lab == 1, lk, 1 if lk == 0 else 0), lk
     df = pd.DataFrame({**cols, "score": score, "label": labels})
     # the frame's index and unrelated columns are irrelevant to the result: rows are what counts
     # the container type of the group columns is irrelevant too: object/str columns, or pandas Categorical with any category order
@@ -191,6 +198,8 @@ def execute(ctx, case):
         sess.check("R-showbias", False, what, d, sig=sig, key="showbias-" + facet)
 
     kw = dict(metric=metric, normalize=normalize, threshold=thr_arg, pos_label=pos_label)
+    if pos_label == 1 and type(pos_label) is int and case["_seed"] % 2:
+        del kw["pos_label"]  # the documented default
     if not case["default_cfg"]:
         kw.update(score_class=sc, equal_class=ec)
     else:
